@@ -53,10 +53,10 @@ class NumberParameter(Parameter):
 
         try:
             return int(value)
-        except ValueError:
+        except (ValueError, TypeError):
             try:
                 return float(value)
-            except ValueError:
+            except (ValueError, TypeError):
                 raise ParameterNotValid(value, "Number", lineno)
 
     @staticmethod
@@ -92,7 +92,7 @@ class PathParameter(StringParameter):
         self.must_exist = must_exist
 
     def clean(self, value, program=None, lineno=None):
-        super(PathParameter, self).clean(value, program, lineno)
+        value = super(PathParameter, self).clean(value, program, lineno)
 
         if not os.path.isabs(value):
             if program.working_dir is None:
@@ -199,7 +199,7 @@ class DataTypeParameter(StringParameter):
 
         try:
             return self.valid_types[value]
-        except KeyError:
+        except (KeyError, TypeError):
             raise ParameterNotValid(
                 value,
                 "Data Type ({})".format(",".join(self.valid_types.keys())),
